@@ -270,8 +270,20 @@ def load_known():
 
 
 def history_of(shard_file, line):
-    """The reset-delimited history containing `line` (1-based), cut at that line."""
+    """The smallest prefix-closed context of the event at `line` (1-based) that the trace specification needs:
+    board traces: the reset-delimited history; constructor traces: the last canonical / accepted base plus the event;
+    value traces: the event alone; key-extraction traces: the whole prefix (keys accumulate)."""
     lines = open(shard_file).read().splitlines()
+    ev = lines[line - 1]
+    if ev.startswith('{"ev":"parse"') or ev.startswith('{"ev":"build"'):
+        for k in range(line - 1, 0, -1):
+            if '"gen":"canonical"' in lines[k - 1][:60] or '"gen":"accepted"' in lines[k - 1][:60]:
+                return [lines[k - 1]] + ([ev] if k != line else [])
+        return [ev]
+    if re.match(r'\{"ev":"(bb_|pm|sq|offs|fr|txt|leap|bl|pq|sl|start)', ev):
+        return [ev]
+    if re.match(r'\{"ev":"(key|lin|table|extracted|decide)', ev):
+        return lines[:line]
     start = line
     while start > 1 and not lines[start - 1].startswith('{"ev":"reset"'):
         start -= 1
